@@ -1,7 +1,7 @@
 (* C16: Gen = Model and the transport of the theorems of Proofs/QueueInvProofs.v to the
    programs generated on this run. *)
 From Coq Require Import ZArith List Bool Lia ZifyBool Arith.
-From BV Require Import Model.SemProg Model.QueueProg Model.QueueCode Proofs.SemProgProofs Proofs.QueueInvProofs.
+From BV Require Import Lib.Cases Model.SemProg Model.QueueProg Model.QueueCode Model.QueueCheck Proofs.SemProgProofs Proofs.QueueInvProofs Proofs.QueueStartProofs.
 From BV Require Gen.P_queue.
 Import ListNotations.
 Open Scope Z_scope.
@@ -25,12 +25,13 @@ Definition gen_qworld (maxsize : Z) (nprocs : nat) : list sem := P_queue.queue_s
 Lemma gen_qworld_w : forall M n, gen_qworld M n = qworld M n.
 Proof. reflexivity. Qed.
 
-Definition gen_qinit (maxsize : Z) (scripts : list (list qcall)) : qsys :=
-  qinit_sys P_queue.code P_queue.FEED (gen_qworld maxsize (length scripts)) scripts.
+(* own = the process of each (main thread, feeder slot) pair; [] = one main thread per process *)
+Definition gen_qinit (maxsize : Z) (own : list nat) (scripts : list (list qcall)) : qsys :=
+  qinit_sys P_queue.code P_queue.FEED (gen_qworld maxsize (length scripts)) own scripts.
 
-Lemma gen_qinit_eq : forall M scripts, gen_qinit M scripts = qinit M scripts.
+Lemma gen_qinit_eq : forall M own scripts, gen_qinit M own scripts = qinit_own M own scripts.
 Proof.
-  intros. unfold gen_qinit, qinit. rewrite gen_qworld_w, gen_feed_eq.
+  intros. unfold gen_qinit, qinit_own. rewrite gen_qworld_w, gen_feed_eq.
   apply qinit_sys_ext. apply gen_qcode_eq.
 Qed.
 
@@ -55,111 +56,112 @@ Proof.
   destruct (qstep qcode g i go) as [[g1 e]|]; auto.
 Qed.
 
-(* states reachable by the generated programs: any number of processes (each a main thread
-   running any script of put / get / task_done / join calls, plus its feeder thread), any
-   maxsize >= 0, any schedule; counters below SEM_VALUE_MAX *)
-Definition QReach (M : Z) (g : qsys) : Prop :=
+(* states reachable by the generated programs: any number of main threads, each running any script of
+   put / get / task_done / join calls and each with the feeder thread its _start_thread would start,
+   grouped into processes in any way (own: the main threads of one process share its queue object:
+   buffer, _notempty, _thread), any maxsize >= 0, any schedule; counters below SEM_VALUE_MAX *)
+Definition QReach (M : Z) (own : list nat) (g : qsys) : Prop :=
   exists scripts sched es ok,
-    0 <= M /\ Forall (Forall okq) scripts /\
-    gen_qrun_small (gen_qinit M scripts) sched /\
-    qrun P_queue.code (gen_qinit M scripts) sched = (g, es, ok).
+    0 <= M /\ Forall (Forall okq) scripts /\ own_ok (length scripts) own /\
+    gen_qrun_small (gen_qinit M own scripts) sched /\
+    qrun P_queue.code (gen_qinit M own scripts) sched = (g, es, ok).
 
-Theorem qreach_inv : forall M g, QReach M g -> QInv M g.
+Theorem qreach_inv : forall M own g, QReach M own g -> QInv M own g.
 Proof.
-  intros M g (scripts & sched & es & ok & HM & Hs & Hsm & Hrun).
+  intros M own g (scripts & sched & es & ok & HM & Hs & Hown & Hsm & Hrun).
   rewrite gqrun, gen_qinit_eq in Hrun. rewrite gen_qinit_eq in Hsm.
   eapply qinv_run; [apply qinv_init; eauto|apply gen_qrun_small_eq; eauto|eauto].
 Qed.
 
-Theorem G_queue_capacity : forall M g, QReach M g ->
+Theorem G_queue_capacity : forall M own g, QReach M own g ->
     qv 0 g + sumz blen (procs g) + Z.of_nat (length (pipe g)) + sumz qt_tr (qthr g) = M /\
     0 <= qv 0 g /\
     sumz blen (procs g) + Z.of_nat (length (pipe g)) <= M.
-Proof. intros M g HR. apply queue_capacity. apply qreach_inv; auto. Qed.
+Proof. intros M own g HR. apply (queue_capacity M own). apply qreach_inv; auto. Qed.
 
-Theorem G_queue_fifo : forall M g, QReach M g ->
+Theorem G_queue_fifo : forall M own g, QReach M own g ->
     (forall p, pk (plog (nth p (procs g) dps)) =
-               slog (nth p (procs g) dps) ++ pk (ftr (nth (2 * p + 1) (qthr g) dqt)) ++ pk (buf (nth p (procs g) dps))) /\
+               slog (nth p (procs g) dps) ++ pk (fd_ftr (nth p (procs g) dps) (qthr g)) ++ pk (buf (nth p (procs g) dps))) /\
     map snd (sendlog g) = getlog g ++ pipe g /\
     (forall p, from_proc p (sendlog g) = slog (nth p (procs g) dps)) /\
     (forall m, zcnt m (map snd (sendlog g)) = sumz (fun ps => zcnt m (slog ps)) (procs g)).
-Proof. intros M g HR. apply (queue_fifo M). apply qreach_inv; auto. Qed.
+Proof. intros M own g HR. apply (queue_fifo M own). apply qreach_inv; auto. Qed.
 
-Theorem G_get_returns_received : forall M g m, QReach M g -> m <> E_EMPTY ->
+Theorem G_get_returns_received : forall M own g m, QReach M own g -> m <> E_EMPTY ->
     zcnt m (getlog g) =
     sumz (fun t => rcount m (qresults t)) (qthr g) + sumz (fun t => zcnt m (gheld t)) (qthr g).
-Proof. intros M g m HR. apply (get_returns_received M). apply qreach_inv; auto. Qed.
+Proof. intros M own g m HR. apply (get_returns_received M own). apply qreach_inv; auto. Qed.
 
-Theorem G_put_get_exact : forall M g m, QReach M g -> m <> E_EMPTY -> picklable m = true ->
+Theorem G_put_get_exact : forall M own g m, QReach M own g -> m <> E_EMPTY -> picklable m = true ->
     sumz (fun ps => zcnt m (plog ps)) (procs g) =
     sumz (fun t => rcount m (qresults t)) (qthr g) + sumz (fun t => zcnt m (gheld t)) (qthr g)
     + zcnt m (pipe g)
-    + psum (fun p => zcnt m (ftr (nth (2 * p + 1) (qthr g) dqt))) (length (procs g))
+    + psum (fun p => zcnt m (fd_ftr (nth p (procs g) dps) (qthr g))) (length (procs g))
     + sumz (fun ps => zcnt m (buf ps)) (procs g).
-Proof. intros M g m HR. apply (put_get_exact M). apply qreach_inv; auto. Qed.
+Proof. intros M own g m HR. apply (put_get_exact M own). apply qreach_inv; auto. Qed.
 
-Theorem G_feeder_drops_only_unpicklable : forall M g t, QReach M g -> In t (qthr g) ->
+Theorem G_feeder_drops_only_unpicklable : forall M own g t, QReach M own g -> In t (qthr g) ->
     qfeeder t = true -> qpc t = 14%nat -> picklable (r2 (qrg t)) = false.
-Proof. intros M g t HR. apply (feeder_drops_only_unpicklable M). apply qreach_inv; auto. Qed.
+Proof. intros M own g t HR. apply (feeder_drops_only_unpicklable M own). apply qreach_inv; auto. Qed.
 
-Theorem G_unpicklable_never_sent : forall M g m, QReach M g -> picklable m = false ->
+Theorem G_unpicklable_never_sent : forall M own g m, QReach M own g -> picklable m = false ->
     zcnt m (map snd (sendlog g)) = 0 /\ zcnt m (getlog g) = 0 /\ zcnt m (pipe g) = 0.
-Proof. intros M g m HR. apply (unpicklable_never_sent M). apply qreach_inv; auto. Qed.
+Proof. intros M own g m HR. apply (unpicklable_never_sent M own). apply qreach_inv; auto. Qed.
 
-Theorem G_feeder_never_ends : forall M g t, QReach M g -> In t (qthr g) -> qfeeder t = true ->
+Theorem G_feeder_never_ends : forall M own g t, QReach M own g -> In t (qthr g) -> qfeeder t = true ->
     qfin t = false /\ qexited P_queue.code t = false.
 Proof.
-  intros M g t HR Ht Hf. destruct (feeder_never_ends M g t (qreach_inv M g HR) Ht Hf) as [A B].
+  intros M own g t HR Ht Hf. destruct (feeder_never_ends M own g t (qreach_inv M own g HR) Ht Hf) as [A B].
   split; [exact A|]. unfold qexited in *. rewrite gen_qcode_eq. exact B.
 Qed.
 
-Theorem G_queue_no_loss_no_dup : forall M g m, QReach M g -> picklable m = true ->
+Theorem G_queue_no_loss_no_dup : forall M own g m, QReach M own g -> picklable m = true ->
     sumz (fun ps => zcnt m (plog ps)) (procs g) =
     zcnt m (getlog g) + zcnt m (pipe g)
-    + psum (fun p => zcnt m (ftr (nth (2 * p + 1) (qthr g) dqt))) (length (procs g))
+    + psum (fun p => zcnt m (fd_ftr (nth p (procs g) dps) (qthr g))) (length (procs g))
     + sumz (fun ps => zcnt m (buf ps)) (procs g).
-Proof. intros M g m HR. apply (queue_no_loss_no_dup M). apply qreach_inv; auto. Qed.
+Proof. intros M own g m HR. apply (queue_no_loss_no_dup M own). apply qreach_inv; auto. Qed.
 
-Theorem G_unfinished_count : forall M g, QReach M g -> qv 3 g = sumz qt_unf (qthr g) /\ 0 <= qv 3 g.
-Proof. intros M g HR. apply (unfinished_count M). apply qreach_inv; auto. Qed.
+Theorem G_unfinished_count : forall M own g, QReach M own g -> qv 3 g = sumz qt_unf (qthr g) /\ 0 <= qv 3 g.
+Proof. intros M own g HR. apply (unfinished_count M own). apply qreach_inv; auto. Qed.
 
-Theorem G_task_done_raises_iff_matched : forall M g i t g' e, QReach M g ->
+Theorem G_task_done_raises_iff_matched : forall M own g i t g' e, QReach M own g ->
     nth_error (qthr g) i = Some t -> qfin t = false -> qfeeder t = false ->
     qcid t = 4%nat -> qpc t = 1%nat ->
     qstep P_queue.code g i true = Some (g', e) ->
     (snd e = 0 <-> sumz qt_unf (qthr g) = 0) /\ (snd e = 1 <-> 0 < sumz qt_unf (qthr g)).
 Proof.
-  intros M g i t g' e HR Ht Hf Hfd Hc Hp H. rewrite gqstep in H.
-  eapply (task_done_raises_iff_matched M); eauto. apply qreach_inv; auto.
+  intros M own g i t g' e HR Ht Hf Hfd Hc Hp H. rewrite gqstep in H.
+  eapply (task_done_raises_iff_matched M own); eauto. apply qreach_inv; auto.
 Qed.
 
-Theorem G_join_test_iff_matched : forall M g i t g' e, QReach M g ->
+Theorem G_join_test_iff_matched : forall M own g i t g' e, QReach M own g ->
     nth_error (qthr g) i = Some t -> qfin t = false -> qfeeder t = false ->
     qcid t = 5%nat -> qpc t = 1%nat ->
     qstep P_queue.code g i true = Some (g', e) ->
     (snd e = 1 <-> sumz qt_unf (qthr g) = 0).
 Proof.
-  intros M g i t g' e HR Ht Hf Hfd Hc Hp H. rewrite gqstep in H.
-  eapply (join_test_iff_matched M); eauto. apply qreach_inv; auto.
+  intros M own g i t g' e HR Ht Hf Hfd Hc Hp H. rewrite gqstep in H.
+  eapply (join_test_iff_matched M own); eauto. apply qreach_inv; auto.
 Qed.
 
-Theorem G_queue_locks : forall M g, QReach M g ->
+Theorem G_queue_locks : forall M own g, QReach M own g ->
     qv 1 g + sumz qt_rl (qthr g) = 1 /\ qv 2 g + sumz qt_wl (qthr g) = 1 /\
     forall p, (p < length (procs g))%nat -> qv (nls p) g + sumz (qt_nl p) (qthr g) = 1.
-Proof. intros M g HR. apply (queue_locks M). apply qreach_inv; auto. Qed.
+Proof. intros M own g HR. apply (queue_locks M own). apply qreach_inv; auto. Qed.
 
-Theorem G_queue_step : forall M g i go g' e, QReach M g -> qsmall g ->
-    qstep P_queue.code g i go = Some (g', e) -> QInv M g'.
-Proof. intros M g i go g' e HR Hsm H. rewrite gqstep in H. eapply qstep_inv; eauto. apply qreach_inv; auto. Qed.
+Theorem G_queue_step : forall M own g i go g' e, QReach M own g -> qsmall g ->
+    qstep P_queue.code g i go = Some (g', e) -> QInv M own g'.
+Proof. intros M own g i go g' e HR Hsm H. rewrite gqstep in H. eapply (qstep_inv M own); eauto. apply qreach_inv; auto. Qed.
 
-Theorem G_full_only_when_zero : forall M g i t g' e, QReach M g ->
+Theorem G_full_only_when_zero : forall M own g i t g' e, QReach M own g ->
     nth_error (qthr g) i = Some t -> qfin t = false -> qfeeder t = false ->
     (qcid t = 0%nat \/ qcid t = 3%nat) -> qpc t = 0%nat ->
     qstep P_queue.code g i true = Some (g', e) ->
     (snd e = 0 -> qv 0 g = 0) /\ (snd e = 1 -> 0 < qv 0 g).
 Proof.
-  intros M g i t g' e HR Ht Hf Hfd Hc Hp H. rewrite gqstep in H.
-  eapply (full_only_when_zero M); eauto. apply qreach_inv; auto.
+  intros M own g i t g' e HR Ht Hf Hfd Hc Hp H. rewrite gqstep in H.
+  eapply (full_only_when_zero M own); eauto. apply qreach_inv; auto.
 Qed.
 
 Theorem G_empty_only_when_nothing : forall g i t g' e,
@@ -169,19 +171,19 @@ Theorem G_empty_only_when_nothing : forall g i t g' e,
     (snd e = 0 <-> pipe g = []).
 Proof. intros g i t g' e Ht Hf Hfd Hc Hp H. rewrite gqstep in H. eapply empty_only_when_nothing; eauto. Qed.
 
-Theorem G_put_appends_its_argument : forall M g t, QReach M g -> In t (qthr g) ->
+Theorem G_put_appends_its_argument : forall M own g t, QReach M own g -> In t (qthr g) ->
     qfeeder t = false -> qfin t = false -> (qcid t = 0%nat \/ qcid t = 3%nat) ->
     (qpc t = 0%nat \/ qpc t = 3%nat \/ qpc t = 6%nat) -> r2 (qrg t) = a2_of (qcur t).
-Proof. intros M g t HR. apply (put_appends_its_argument M). apply qreach_inv; auto. Qed.
+Proof. intros M own g t HR. apply (put_appends_its_argument M own). apply qreach_inv; auto. Qed.
 
 (* non-vacuity: maxsize 1, two producers and a consumer; a reachable state with one message
    received, one in the pipe... *)
 Definition qex_scripts : list (list qcall) :=
   [[(0%nat, 0, 1, 11)]; [(0%nat, 0, 1, 12)]; [(1%nat, 0, 1, 0)]].
 Definition qex_sched : list (nat * bool) :=
-  [(0%nat, true); (0%nat, true); (0%nat, true); (1%nat, true); (1%nat, true); (1%nat, true);
+  [(0%nat, true); (0%nat, true); (0%nat, true); (0%nat, true); (1%nat, true); (1%nat, true); (1%nat, true);
    (1%nat, true); (4%nat, true); (4%nat, true)].
-Definition qex_state : qsys := fst (fst (qrun P_queue.code (gen_qinit 1 qex_scripts) qex_sched)).
+Definition qex_state : qsys := fst (fst (qrun P_queue.code (gen_qinit 1 [] qex_scripts) qex_sched)).
 
 (* boolean version of the "counters below SEM_VALUE_MAX" side condition, for closed examples *)
 Definition qsmallb (g : qsys) : bool := forallb (fun s => val s <? QSVM) (qsems g).
@@ -212,14 +214,15 @@ Proof.
 Qed.
 
 Lemma qex_witness :
-  QReach 1 qex_state /\ qv 0 qex_state = 0 /\ getlog qex_state = [11] /\ sendlog qex_state = [(0%nat, 11)] /\
+  QReach 1 [] qex_state /\ qv 0 qex_state = 0 /\ getlog qex_state = [11] /\ sendlog qex_state = [(0%nat, 11)] /\
   sumz qt_tr (qthr qex_state) = 1 /\ pipe qex_state = [].
 Proof.
   split.
   - exists qex_scripts, qex_sched.
-    destruct (qrun P_queue.code (gen_qinit 1 qex_scripts) qex_sched) as [[g es] ok] eqn:E.
-    exists es, ok. split; [lia|]. split; [|split].
+    destruct (qrun P_queue.code (gen_qinit 1 [] qex_scripts) qex_sched) as [[g es] ok] eqn:E.
+    exists es, ok. split; [lia|]. split; [|split; [|split]].
     + repeat constructor; unfold okq; cbn; lia.
+    + apply own_ok_nil.
     + apply gen_qrun_smallb_ok. vm_compute. reflexivity.
     + unfold qex_state. rewrite E. reflexivity.
   - vm_compute. repeat split.
@@ -237,8 +240,8 @@ Qed.
 Definition qlost_scripts : list (list qcall) :=
   [[(0%nat, 0, 1, 1000); (0%nat, 0, 1, 12)]; [(1%nat, 0, 1, 0)]].
 Definition qlost_sched : list (nat * bool) :=
-  repeat (0%nat, true) 6 ++ repeat (1%nat, true) 10 ++ repeat (2%nat, true) 4.
-Definition qlost_state : qsys := fst (fst (qrun P_queue.code (gen_qinit 2 qlost_scripts) qlost_sched)).
+  repeat (0%nat, true) 7 ++ repeat (1%nat, true) 10 ++ repeat (2%nat, true) 4.
+Definition qlost_state : qsys := fst (fst (qrun P_queue.code (gen_qinit 2 [] qlost_scripts) qlost_sched)).
 
 Definition qdeadb (g : qsys) : bool :=
   forallb (fun i => match qstep P_queue.code g i true, qstep P_queue.code g i false with
@@ -254,7 +257,7 @@ Proof.
 Qed.
 
 Lemma qlost_now_delivered :
-  QReach 2 qlost_state /\
+  QReach 2 [] qlost_state /\
   (forall i go, qstep P_queue.code qlost_state i go = None) /\
   (* both puts of process 0 were accepted *)
   map snd (qresults (nth 0 (qthr qlost_state) dqt)) = [V_NONE; V_NONE] /\
@@ -270,11 +273,114 @@ Lemma qlost_now_delivered :
 Proof.
   split.
   - exists qlost_scripts, qlost_sched.
-    destruct (qrun P_queue.code (gen_qinit 2 qlost_scripts) qlost_sched) as [[g es] ok] eqn:E.
-    exists es, ok. split; [lia|]. split; [|split].
+    destruct (qrun P_queue.code (gen_qinit 2 [] qlost_scripts) qlost_sched) as [[g es] ok] eqn:E.
+    exists es, ok. split; [lia|]. split; [|split; [|split]].
     + repeat constructor; unfold okq; cbn; lia.
+    + apply own_ok_nil.
     + apply gen_qrun_smallb_ok. vm_compute. reflexivity.
     + unfold qlost_state. rewrite E. reflexivity.
   - split; [apply qdeadb_ok; vm_compute; reflexivity|].
     vm_compute. repeat split.
+Qed.
+
+(* ================================================================== several producer threads of one process:
+   Queue._start_thread *)
+Theorem G_one_feeder_started : forall M own g p, QReach M own g ->
+    (length (spawned (nth p (procs g) dps)) <= 1)%nat.
+Proof. intros M own g p HR. apply (one_feeder_started M own). apply qreach_inv; auto. Qed.
+
+Theorem G_feeder_unique : forall M own g i j ti tj, QReach M own g ->
+    nth_error (qthr g) i = Some ti -> nth_error (qthr g) j = Some tj ->
+    qfeeder ti = true -> qfeeder tj = true -> qproc ti = qproc tj ->
+    qdormant g i ti = false -> qdormant g j tj = false -> i = j.
+Proof. intros M own g i j ti tj HR. apply (feeder_unique M own). apply qreach_inv; auto. Qed.
+
+Theorem G_start_under_lock : forall M own g i t, QReach M own g -> nth_error (qthr g) i = Some t -> at_start t ->
+    qv (nls (qproc t)) g = 0 /\
+    spawned (nth (qproc t) (procs g) dps) = [] /\ buf (nth (qproc t) (procs g) dps) = [] /\
+    (forall j u, nth_error (qthr g) j = Some u -> j <> i -> qt_nl (qproc t) u = 0 /\ ~ (qproc u = qproc t /\ at_start u)).
+Proof. intros M own g i t HR. apply (start_under_lock M own). apply qreach_inv; auto. Qed.
+
+Theorem G_start_step_clears_nothing : forall M own g i go g' e, QReach M own g ->
+    qstep P_queue.code g i go = Some (g', e) -> snd (fst e) = 7 ->
+    exists t, nth_error (qthr g) i = Some t /\ at_start t /\ e = (i, THREAD, 7, 0) /\
+              buf (nth (qproc t) (procs g) dps) = [].
+Proof.
+  intros M own g i go g' e HR H. rewrite gqstep in H. eapply (start_step_clears_nothing M own); eauto.
+  apply qreach_inv; auto.
+Qed.
+
+Theorem G_trace_starts_ok : forall M own scripts sched g es ok,
+    0 <= M -> Forall (Forall okq) scripts -> own_ok (length scripts) own ->
+    gen_qrun_small (gen_qinit M own scripts) sched ->
+    qrun P_queue.code (gen_qinit M own scripts) sched = (g, es, ok) ->
+    clear_ok es = true /\ one_feeder_ok own (length scripts) es = true.
+Proof.
+  intros M own scripts sched g es ok HM Hs Hown Hsm H.
+  rewrite gqrun, gen_qinit_eq in H. rewrite gen_qinit_eq in Hsm.
+  eapply (trace_starts_ok M own scripts sched g es ok); eauto; apply gen_qrun_small_eq; auto.
+Qed.
+
+Theorem G_thread_order : forall M own g i t, QReach M own g -> nth_error (qthr g) i = Some t ->
+    Subseq (tput t) (plog (nth (qproc t) (procs g) dps)).
+Proof. intros M own g i t HR. apply (thread_order M own). apply qreach_inv; auto. Qed.
+
+(* non-vacuity: capacity 2; main threads 0 and 2 are TWO THREADS OF PROCESS 0 (own = [0; 0; 2]), each doing
+   the first put on the fresh queue; process 2 gets twice.  Schedule: both threads take a capacity token;
+   thread 0 takes the lock of _notempty and stands at _start_thread while thread 2 waits for that lock;
+   thread 0 starts the feeder (slot 1), appends 11 and leaves; thread 2 finds self._thread set, appends 12;
+   the feeder writes 11, 12; the consumer returns 11, 12.  One feeder was started (slot 1; slot 3 is
+   still dormant), nothing was dropped, per-producer order held, the capacity is whole. *)
+Definition qtwo_scripts : list (list qcall) :=
+  [[(0%nat, 0, 1, 11)]; [(0%nat, 0, 1, 12)]; [(1%nat, 0, 1, 0); (1%nat, 0, 1, 0)]].
+Definition qtwo_own : list nat := [0; 0; 2]%nat.
+Definition qtwo_sched : list (nat * bool) :=
+  [(0%nat, true); (2%nat, true); (0%nat, true); (0%nat, true); (0%nat, true); (2%nat, true); (2%nat, true)]
+  ++ repeat (1%nat, true) 10 ++ repeat (4%nat, true) 8.
+Definition qtwo_run := qrun P_queue.code (gen_qinit 2 qtwo_own qtwo_scripts) qtwo_sched.
+Definition qtwo_state : qsys := fst (fst qtwo_run).
+(* the state in the middle of the race: thread 0 stands at _start_thread, thread 2 has its token and waits *)
+Definition qtwo_mid : qsys := fst (fst (qrun P_queue.code (gen_qinit 2 qtwo_own qtwo_scripts) (firstn 3 qtwo_sched))).
+
+Lemma qtwo_witness :
+  QReach 2 qtwo_own qtwo_state /\ QReach 2 qtwo_own qtwo_mid /\
+  (* in the middle: thread 0 at _start_thread holding the lock, thread 2 blocked on it *)
+  (at_start (nth 0 (qthr qtwo_mid) dqt) /\ qv (nls 0) qtwo_mid = 0 /\
+   qstep P_queue.code qtwo_mid 2 true = None /\ qpc (nth 2 (qthr qtwo_mid) dqt) = 3%nat) /\
+  (* at the end *)
+  snd qtwo_run = true /\
+  (forall i go, qstep P_queue.code qtwo_state i go = None) /\
+  spawned (nth 0 (procs qtwo_state) dps) = [1%nat] /\
+  qdormant qtwo_state 3 (nth 3 (qthr qtwo_state) dqt) = true /\
+  map snd (qresults (nth 0 (qthr qtwo_state) dqt)) = [V_NONE] /\
+  map snd (qresults (nth 2 (qthr qtwo_state) dqt)) = [V_NONE] /\
+  plog (nth 0 (procs qtwo_state) dps) = [11; 12] /\
+  tput (nth 0 (qthr qtwo_state) dqt) = [11] /\ tput (nth 2 (qthr qtwo_state) dqt) = [12] /\
+  sendlog qtwo_state = [(0%nat, 11); (0%nat, 12)] /\
+  map snd (qresults (nth 4 (qthr qtwo_state) dqt)) = [12; 11] /\ getlog qtwo_state = [11; 12] /\
+  buf (nth 0 (procs qtwo_state) dps) = [] /\ pipe qtwo_state = [] /\ qv 0 qtwo_state = 2 /\
+  filter is_start (snd (fst qtwo_run)) = [(0%nat, THREAD, 7, 0)].
+Proof.
+  assert (Hown : own_ok 3 qtwo_own).
+  { intros q Hq. destruct q as [|[|[|q]]]; cbn; lia. }
+  split; [|split].
+  - exists qtwo_scripts, qtwo_sched.
+    destruct (qrun P_queue.code (gen_qinit 2 qtwo_own qtwo_scripts) qtwo_sched) as [[g es] ok] eqn:E.
+    exists es, ok. split; [lia|]. split; [|split; [|split]].
+    + repeat constructor; unfold okq; cbn; lia.
+    + exact Hown.
+    + apply gen_qrun_smallb_ok. vm_compute. reflexivity.
+    + unfold qtwo_state, qtwo_run. rewrite E. reflexivity.
+  - exists qtwo_scripts, (firstn 3 qtwo_sched).
+    destruct (qrun P_queue.code (gen_qinit 2 qtwo_own qtwo_scripts) (firstn 3 qtwo_sched)) as [[g es] ok] eqn:E.
+    exists es, ok. split; [lia|]. split; [|split; [|split]].
+    + repeat constructor; unfold okq; cbn; lia.
+    + exact Hown.
+    + apply gen_qrun_smallb_ok. vm_compute. reflexivity.
+    + unfold qtwo_mid. rewrite E. reflexivity.
+  - split.
+    + split; [|vm_compute; repeat split].
+      unfold at_start. vm_compute. split; [reflexivity|]. left. split; reflexivity.
+    + split; [vm_compute; reflexivity|]. split; [apply qdeadb_ok; vm_compute; reflexivity|].
+      vm_compute. repeat split.
 Qed.
